@@ -19,6 +19,10 @@
 //	                  leaves overlapping intervals — the known defect of the pinned tree
 //	[fffd-alias]      some pattern contains a real U+FFFD and the text is not valid UTF-8
 //	                  (known C05 defect leaking into Replace)
+//
+// strength.go adds histories and sizes (rebuild stages, interleaved tries, kept
+// results, reused text buffers, long patterns, big texts, wide nodes, cold start);
+// their signature suffixes name the situation in which the call was made.
 package main
 
 import (
@@ -834,8 +838,10 @@ func mixedCase(c *ev.Case) {
 
 func main() {
 	r := ev.New("C06")
-	r.Rule("one case = one generated pattern list inserted into a real Trie + BuildFailureLinks, then 4-5 texts (random, overlap constructions, arbitrary bytes; or directed constructions: long pattern over earlier disjoint short ones, touching/overlapping chains, nested triples), each with 2 replacements (disjoint alphabet, empty, colliding, invalid bytes) and 1-2 mask runes of 1-4 bytes; distinct = hash of (pattern list, texts); non-trivial = at least one non-empty pattern")
+	r.Rule("one case = one generated pattern list inserted into a real Trie + BuildFailureLinks, then 4-5 texts (random, overlap constructions, arbitrary bytes; or directed constructions: long pattern over earlier disjoint short ones, touching/overlapping chains, nested triples), each with 2 replacements (disjoint alphabet, empty, colliding, invalid bytes) and 1-2 mask runes of 1-4 bytes; distinct = hash of (pattern list, texts); non-trivial = at least one non-empty pattern; " +
+		"added histories (strength.go): staged = one trie grown over 2-4 Insert*+Build stages with the same (text, method, argument) calls repeated after every build, stages without a query, Build twice, queries on the never-built empty zero value; interleave = 2-3 tries differing in one pattern used alternately on one goroutine, successive calls differing in one ingredient, texts optionally views of one reused byte buffer; big/* = patterns up to 70001 bytes (262145 thorough), texts up to 512 KiB (3 MiB thorough) with an occurrence across every multiple of 16 KiB, nodes with up to 2049 children (8193 thorough); cold-start = one fresh process per case whose first query uses the never-built zero value, the mask U+0000 or the empty replacement")
 	r.Assume("oracle = byte-wise brute-force occurrences over the distinct non-empty inserted patterns -> covered bytes -> maximal covered regions; patterns are valid UTF-8 (so every occurrence is rune-aligned), except in the engine rand/invalid-bytes where patterns and texts consist of ASCII and of bytes that can never belong to a valid sequence, so that every byte is its own decoding unit")
+	r.Assume("a returned string is the result only if it keeps the bytes it had when it was returned: results of earlier calls are compared again after later calls (kept-result-changed); a text handed over as a view of a caller buffer is rewritten only between calls and its result is judged before the rewrite; the empty pattern set includes the zero-value Trie on which BuildFailureLinks was never called")
 	r.Assume("Replace is accepted iff the result parses as u0 r^k1 u1 … r^km um with 1<=ki<=ni (all parses tried by a DP); mask runes are valid runes")
 
 	hv := ev.Opt{HangViolation: true}
@@ -856,6 +862,14 @@ func main() {
 	r.Cases("chains", r.N(30000, 896000), hv, chainCase)
 	r.Cases("nested", r.N(30000, 896000), hv, nestedCase)
 
+	// histories and sizes (strength.go)
+	r.Cases("staged", r.N(20000, 600000), hv, stagedCase)
+	r.Cases("interleave", r.N(6000, 200000), ev.Opt{HangViolation: true, Serial: true}, interleaveCase)
+	r.Cases("big/long-pattern", r.N(2*len(longLens), 4*(len(longLens)+len(longLensThorough))), hv, longPatternCase)
+	r.Cases("big/text", r.N(2*len(bigTextSizes), 3*(len(bigTextSizes)+len(bigTextSizesThorough))), hv, bigTextCase)
+	r.Cases("big/fanout", r.N(2*len(fanouts), 3*(len(fanouts)+len(fanoutsThorough))), hv, fanoutCase)
+	r.CasesProc("cold-start", 24, ev.Opt{Procs: 24, HangViolation: true}, coldCase)
+
 	r.Require("pattern_text_pairs", 100000)
 	r.Require("replace_calls", 100000)
 	r.Require("mask_calls", 100000)
@@ -871,5 +885,24 @@ func main() {
 	r.Require("occurrences_containing_invalid_bytes", 5000)
 	r.Require("mixed_texts_with_occurrence", 5000)
 	r.Require("rebuilds", 2000)
+	r.Require("staged_same_call_repeated_first_after_rebuild", 10000)
+	r.Require("staged_same_call_after_rebuild_with_changed_occurrences", 3000)
+	r.Require("staged_observations_of_never_built_empty_trie", 1000)
+	r.Require("staged_stages_without_any_query", 1000)
+	r.Require("staged_build_twice_in_a_row", 1000)
+	r.Require("kept_results_rechecked", 100000)
+	r.Require("interleave_other_trie_same_text_with_other_occurrences", 1000)
+	r.Require("interleave_same_buffer_other_content_with_other_occurrences", 500)
+	r.Require("mask_calls_with_U+0000", 1000)
+	r.Require("occurrences_of_256_bytes_or_more", 20)
+	r.Require("occurrences_of_64KiB_or_more", 8)
+	r.Require("tries_with_more_than_65536_nodes", 3)
+	r.Require("texts_of_64KiB_or_more", 10)
+	r.Require("texts_of_256KiB_or_more", 4)
+	r.Require("occurrences_across_a_multiple_of_64KiB", 20)
+	r.Require("fanout_cases_with_more_than_256_children", 4)
+	r.Require("fanout_cases_with_more_than_1024_children", 2)
+	r.Require("cold_start_cases", 24)
+	r.Require("cold_start_first_mask_is_U+0000", 12)
 	r.Finish()
 }
